@@ -146,6 +146,31 @@ MUST_FIRE = [
      "                return np.full(len(X), self._label_mean)\n", "                return np.full(len(X), self._label_mean, dtype=X.dtype)\n"),
     ("nic-zero-weight-check-unmasked-c15", ["C15"], ["R15.6"], P + "regressor/_nic_kernel_regressor.py",
      "if np.sum(self.weights_) == 0:", "if np.sum(sample_weight) == 0:"),
+    # ---- round-3 seeded changes
+    ("base-check-indices-result-discarded", ["C01"], ["R1.1"], P + "base.py",
+     "candidates = check_indices(candidates, y, dim=0)", "check_indices(candidates, y, dim=0)"),
+    ("falcun-zero-mask-before-power", ["C01", "C02"], ["R1.4m", "R2.3"], P + "pool/_falcun.py",
+     "            rel_cand = (unc_cand + dist_cand) ** self.gamma\n            rel_cand[query_indices] = 0\n",
+     "            rel_cand = unc_cand + dist_cand\n            rel_cand[query_indices] = 0\n            rel_cand = rel_cand**self.gamma\n"),
+    ("rtal-fallback-ones-over-all-samples", ["C01", "C02"], ["R1.3"], P + "pool/_regression_tree_based_al.py",
+     "                utilities = np.full(len(X), np.nan)\n                utilities[mapping] = np.ones(len(mapping))\n",
+     "                utilities = np.ones(len(X))\n"),
+    ("clue-earlier-picks-masked-after-selection", ["C02", "C01"], ["R2.1", "R1.4m"], P + "pool/_clue.py",
+     "            utilities[b][query_indices] = np.nan\n            idx_b = rand_argmax(utilities[b], random_state=self.random_state_)\n",
+     "            idx_b = rand_argmax(utilities[b], random_state=self.random_state_)\n            utilities[b][query_indices] = np.nan\n"),
+    ("argmax-isclose-tie-mask", ["C02", "C18"], ["R2.5", "R18.1"], SEL,
+     "        * (a == np.nanmax(a, **argmax_kwargs, keepdims=True)),", "        * np.isclose(a, np.nanmax(a, **argmax_kwargs, keepdims=True)),"),
+    ("budget-frozen-at-first-validation", ["C04"], ["R4.5"], P + "base.py",
+     "        if self.budget is not None:\n            self.budget_ = self.budget\n        else:\n            self.budget_ = 0.1\n",
+     "        if not hasattr(self, \"budget_\"):\n            self.budget_ = self.budget if self.budget is not None else 0.1\n", 2),
+    ("alce-mds-seed-only-for-default-params", ["C06"], ["R6.2"], P + "pool/_cost_embedding_al.py",
+     "        \"random_state\": random_state,\n    }\n    if mds_params is not None:\n",
+     "    }\n    if mds_params is None:\n        mds_params_default[\"random_state\"] = random_state\n    else:\n"),
+    ("classifier-random-state-kept-across-fits", ["C06", "C13"], ["R6.6", "R13.2"], P + "base.py",
+     "        self.random_state_ = check_random_state(self.random_state)\n\n        # Create label encoder.",
+     "        if not hasattr(self, \"random_state_\"):\n            self.random_state_ = check_random_state(self.random_state)\n\n        # Create label encoder."),
+    ("saw-utilities-scatter-into-zeros", ["C07"], ["R7.5"], P + "pool/multiannotator/_wrapper.py",
+     "utilities = np.full((batch_size, n_samples, n_annotators), np.nan)", "utilities = np.zeros((batch_size, n_samples, n_annotators))"),
     # ---- C03
     ("split-set-state-deleted", ["C03"], ["R3"], BZ,
      "        self.random_state_.set_state(random_state_state)\n", "        pass\n"),
